@@ -448,6 +448,33 @@ def reader_main(directory: Path, seed: str) -> None:
         pickle.dump({"hashseed": os.environ.get("PYTHONHASHSEED"), "records": recs}, f)
 
 
+def twin_main(directory: Path, seed: str) -> None:
+    """The items listed in twin_<seed>.json, built and used by *this* interpreter without any serialization,
+    on the inputs of the writer's plan."""
+    _setup_child()
+    job = json.loads((directory / "job.json").read_text())
+    idx = json.loads((directory / f"twin_{seed}.json").read_text())
+    with (directory / "plans.pkl").open("rb") as f:
+        plans = pickle.load(f)
+    scratch = directory / f"scratch_twin_{seed}"
+    scratch.mkdir(exist_ok=True)
+    recs: dict[int, Any] = {}
+    for i in idx:
+        item = dict(job["items"][i])
+        if "moment" in plans[i]:
+            item["moment"] = plans[i]["moment"]
+        try:
+            obj, plan = build_item(item, scratch)
+            if obj is None:
+                recs[i] = {"error": plan.get("detail", "not built")}
+                continue
+            recs[i] = {"view": static_view(item, obj), "behaviour": behaviour(item, obj, plans[i])}
+        except Exception as e:  # noqa: BLE001
+            recs[i] = {"error": f"{type(e).__name__}: {str(e)[:200]}"}
+    with (directory / f"twin_{seed}.pkl").open("wb") as f:
+        pickle.dump(recs, f)
+
+
 # --------------------------------------------------------------------------- parent side
 
 
@@ -471,25 +498,53 @@ def subject(item: dict[str, Any], plan: dict[str, Any] | None = None) -> str:
             "scenario": f"{item.get('scenario', 'MDO')}Scenario", "grammar": item.get("grammar", "JSONGrammar")}[k]
 
 
-def _first_answer_diff(OBS, item, a, b) -> tuple[str, str] | None:
-    """(failure kind, text) of the first difference between the behaviour of the original and of the copy."""
+def _strip_durations(v: Any) -> Any:
+    """Wall-clock durations legitimately differ between two objects that did the same work."""
+    if isinstance(v, dict):
+        return {k: _strip_durations(x) for k, x in v.items() if k != "duration"}
+    return v
+
+
+def differences(OBS, ref: dict[str, Any], cop: dict[str, Any], strip_durations: bool = False) -> dict[str, str]:
+    """{failure kind: text}: every way in which `cop` (view at restoration + behaviour) differs from `ref`."""
+    out: dict[str, str] = {}
+    va, vb = ref["view"], cop["view"]
+    if strip_durations:
+        va, vb = _strip_durations(va), _strip_durations(vb)
+    if isinstance(va, dict) and isinstance(vb, dict):
+        for k in sorted(set(va) | set(vb), key=str):
+            d = OBS.diff_views({k: va.get(k)}, {k: vb.get(k)}) if (k in va and k in vb) else [f"/{k}: only in {'original' if k in va else 'copy'}"]
+            if d:
+                out[f"view-differs:{k}"] = "restored object differs from the original: " + "; ".join(d[:3])
+    elif va != vb:
+        out["view-differs"] = f"restored object differs from the original: original={OBS.show(va)} copy={OBS.show(vb)}"
+    a, b = ref["behaviour"], cop["behaviour"]
     if isinstance(a, dict) and "answers" in a:
-        for k, (x, y) in enumerate(zip(a["answers"], b["answers"])):
-            for what in ("execute", "linearize"):
+        for what in ("execute", "linearize"):
+            for k, (x, y) in enumerate(zip(a["answers"], b["answers"])):
                 if x[what] != y[what]:
                     if x[what] is None or y[what] is None or x[what][0] == "exc" or y[what][0] == "exc":
                         d = f"original -> {x['msg'] or x[what][0]}; copy -> {y['msg'] or (y[what][0] if y[what] else None)}"
                     else:
                         d = "; ".join(OBS.diff_views(x[what][1], y[what][1])[:3])
-                    return f"{what}-differs", f"{what}(input #{k}): {d}"
-        d = OBS.diff_views(a["view_after_use"], b["view_after_use"])
-        if d:
-            return "view-differs-after-use:" + d[0].split(":")[0].strip("/").split("/")[0], "after the same usage: " + "; ".join(d[:3])
-        return None
-    d = OBS.diff_views(a, b) if isinstance(a, dict) else ([] if a == b else [f"original={OBS.show(a)} copy={OBS.show(b)}"])
-    if d:
-        return "behaviour-differs", "; ".join(d[:3])
-    return None
+                    out[f"{what}-differs"] = f"{what}(input #{k}): {d}"
+                    break
+        xa, xb = a["view_after_use"], b["view_after_use"]
+        for k in sorted(set(xa) | set(xb), key=str):
+            d = OBS.diff_views({k: xa.get(k)}, {k: xb.get(k)})
+            if d:
+                out[f"view-differs-after-use:{k}"] = "after the same usage: " + "; ".join(d[:3])
+    elif isinstance(a, dict) and isinstance(b, dict):
+        if strip_durations:
+            a, b = _strip_durations(a), _strip_durations(b)
+        for k in sorted(set(a) | set(b), key=str):
+            x, y = a.get(k), b.get(k)
+            d = OBS.diff_views(x, y) if isinstance(x, dict) and isinstance(y, dict) else ([] if x == y else [f"original={OBS.show(x)} copy={OBS.show(y)}"])
+            if d:
+                out[f"behaviour-differs:{k}"] = f"{k}: " + "; ".join(d[:3])
+    elif a != b:
+        out["behaviour-differs"] = f"original={OBS.show(a)} copy={OBS.show(b)}"
+    return out
 
 
 def ad_exact_failures(item, plan_inputs_points, exact, who: str) -> list[tuple[str, str]]:
@@ -542,6 +597,7 @@ def run_job(job: dict[str, Any], tmp: Path):
             out.detail = "no reader interpreter answered: " + "; ".join(out.info.get("reader_failures", []))[:400]
             return out
         items_out = []
+        pending: dict[Any, set[int]] = {}
         for i, item in enumerate(job["items"]):
             plan = exp["plans"][i]
             w = exp["records"][i]
@@ -568,16 +624,13 @@ def run_job(job: dict[str, Any], tmp: Path):
                 o = ob["records"][i]
                 if o is None:
                     continue
+                tagp = f"[restored by another interpreter: PYTHONHASHSEED {job['wseed']} -> {r}, via {job.get('via')}] "
                 if "error" in o:
-                    rec["failures"].append((o["error"][0], f"[reader PYTHONHASHSEED={r}, writer {job['wseed']}, via {job.get('via')}] " + o["error"][1], r))
+                    rec["failures"].append((o["error"][0], tagp + o["error"][1], r))
                     continue
-                tagp = f"[restored in another interpreter: PYTHONHASHSEED {job['wseed']} -> {r}, via {job.get('via')}] "
-                dd = OBS.diff_views(w["view"], o["view"])
-                if dd:
-                    rec["failures"].append(("view-differs:" + dd[0].split(":")[0].strip("/").split("/")[0], tagp + "restored object differs from the original: " + "; ".join(dd[:3]), r))
-                fd = _first_answer_diff(OBS, item, w["behaviour"], o["behaviour"])
-                if fd:
-                    rec["failures"].append((fd[0], tagp + fd[1], r))
+                for k, wh in differences(OBS, w, o).items():
+                    rec["failures"].append((k, tagp + wh, r))
+                    pending.setdefault(r, set()).add(i)
                 if "second_error" in o:
                     rec["failures"].append(("second-generation-raises", tagp + o["second_error"], r))
                 elif "second" in o:
@@ -588,6 +641,34 @@ def run_job(job: dict[str, Any], tmp: Path):
                     rec["ad"]["readers"][str(r)] = {"renv": o["behaviour"]["env"], "exact": o["behaviour"]["exact"]}
                     for k, wh in ad_exact_failures(item, None, o["behaviour"]["exact"], "copy"):
                         rec["failures"].append((k, tagp + wh, r))
+        # A difference between the copy (reader) and the original (writer) is attributed to the serialization
+        # only if a *twin* - the same item built and used by the reader's interpreter, never serialized - does not
+        # show it too: some classes behave differently under another hash seed by themselves (the order in which
+        # an MDA differentiates its inputs comes from a set: the state left by a finite-difference linearization
+        # depends on it), which is not what this property is about.
+        for r, idx in pending.items():
+            (d / f"twin_{r}.json").write_text(json.dumps(sorted(idx)))
+            rc, err = _child(["twin", str(d), str(r)], int(r))
+            tp = d / f"twin_{r}.pkl"
+            if rc != 0 or not tp.exists():
+                out.info.setdefault("reader_failures", []).append(f"twin {r}: exit {rc}: {err}")
+                continue
+            with tp.open("rb") as f:
+                twins = pickle.load(f)
+            for i in sorted(idx):
+                t = twins.get(i)
+                o = observed[r]["records"][i]
+                rec = items_out[i]
+                if not t or "error" in t:
+                    continue
+                still = differences(OBS, t, o, strip_durations=True)
+                kept = []
+                for k, wh, rr in rec["failures"]:
+                    if rr == r and (k.startswith(("view-differs", "execute-differs", "linearize-differs", "behaviour-differs"))) and k not in still:
+                        rec.setdefault("interpreter_dependent", []).append(k)
+                        continue
+                    kept.append((k, wh, rr))
+                rec["failures"] = kept
         out.info["items"] = items_out
         out.info["via"] = job.get("via")
         for rec in items_out:
@@ -603,5 +684,7 @@ if __name__ == "__main__":
         writer_main(Path(sys.argv[2]))
     elif len(sys.argv) >= 4 and sys.argv[1] == "reader":
         reader_main(Path(sys.argv[2]), sys.argv[3])
+    elif len(sys.argv) >= 4 and sys.argv[1] == "twin":
+        twin_main(Path(sys.argv[2]), sys.argv[3])
     else:
         sys.exit("usage: python -m harness.c20_xproc writer <dir> | reader <dir> <seed>")
